@@ -54,6 +54,8 @@ class SimFile:
                 f['call_boundary'] = keep == 0
                 self.fs.fired.append(f['kind'])
                 if f['kind'] == 'crash_write':
+                    if self.fs.real_exit:
+                        os._exit(137)
                     raise SimCrash(f'crash after {self.written} bytes of {self.path}')
                 code = errno.ENOSPC if f['kind'] == 'enospc' else errno.EIO
                 raise OSError(code, os.strerror(code), self.path)
@@ -156,6 +158,8 @@ class SimFile:
                 f['fired_at'] = self.written
                 f['call_boundary'] = True
                 self.fs.fired.append('crash_write')
+                if self.fs.real_exit:
+                    os._exit(137)
                 raise SimCrash(f'crash after complete write of {self.path}')
 
     def __enter__(self):
@@ -182,7 +186,8 @@ def is_cache(path: str) -> bool:
 class SimFS:
     """Owns the open() seam for one run."""
 
-    def __init__(self):
+    def __init__(self, real_exit: bool = False):
+        self.real_exit = real_exit  # crash_write really kills the process (os._exit) instead of raising SimCrash
         self.armed: dict | None = None  # at most one armed fault at a time
         self.fired: list[str] = []
         self.log: list[tuple[str, str]] = []  # (relative path, mode) of every open during current op
